@@ -31,6 +31,12 @@ class C03(object):
                 rvs = None
             else:
                 rvs = sorted(rng.sample(rest, rng.randint(1, len(rest))))
+            # the caller may list the variables in any order; condition_on keeps variable order
+            crvs = list(crvs)
+            rng.shuffle(crvs)
+            if rvs is not None:
+                rvs = list(rvs)
+                rng.shuffle(rvs)
             c['crvs'] = crvs
             c['rvs'] = rvs
             c['byname'] = bool(c['names']) and rng.random() < 0.5
@@ -65,8 +71,10 @@ class C03(object):
         klass = case['klass']
         n = case['n']
         names = case.get('names')
-        crvs = case['crvs']
-        rvs = case['rvs']
+        crvs_arg = case['crvs']
+        rvs_arg = case['rvs']
+        crvs = sorted(crvs_arg)
+        rvs = None if rvs_arg is None else sorted(rvs_arg)
         idx = rvs if rvs is not None else [i for i in range(n) if i not in crvs]
         r.features = gen.case_features(case) + ['rvsNone=%s' % (rvs is None), 'byname=%s' % case['byname'],
                                                 'extract=%s' % case['extract'], 'dropped=%d' % (n - len(crvs) - len(idx))]
@@ -82,7 +90,7 @@ class C03(object):
             return [names[i] for i in ix] if case['byname'] else list(ix)
         rv_mode = 'names' if case['byname'] else 'indices'
         try:
-            cdist, conds = d.condition_on(nm(crvs), None if rvs is None else nm(rvs), rv_mode=rv_mode,
+            cdist, conds = d.condition_on(nm(crvs_arg), None if rvs_arg is None else nm(rvs_arg), rv_mode=rv_mode,
                                           extract=case['extract'])
         except Exception as e:  # noqa
             r.oracle_fail = 'condition_on raised %s: %s' % (type(e).__name__, str(e)[:150])
